@@ -41,6 +41,11 @@ everything big, noise None | 0 | 1e-13 | 1e-20, pe default | 1e-12; the rescale-
 uses the factors {2, -0.5j, 1e-3, 1e-10, 1e8}.  All tolerances are relative to the operands
 (kappa = (signal + denominator) / denominator); there is no absolute floor.
 
+Part 1c (sum capacity at scale): calc_sum_capacity and calc_shannon_sum_capacity must be finite
+and equal to the sum of log2(1 + SINR) of the oracle's own SINRs where the true capacity exceeds
+1100 bits (K = 40 users x 3 streams at ordinary SINR; K = 12 isolated links at noise 1e-30 / 1e-300)
+and where 1 + SINR rounds to 1 (the 120 streams at noise 1e6 / 1e20).
+
 Part H (object reuse, engine E3): for every (class, layout, Ns, member) of hist_configs() a
 breadth-first exploration of every event history up to the depth bound over ONE channel object
 and ONE solver bound to it.  Events: set_pathloss(None | P1(,E1) | P2(,E2)), noise_var = None | 0 |
@@ -1065,7 +1070,7 @@ EV_CORE = [("pl", 0), ("pl", 1), ("pl", 3), ("noise", 0), ("noise", 2), ("init",
 EVENT_NAME = {"pl": "set_pathloss", "noise": "noise_var", "init": "init_from_channel_matrix",
               "rand": "randomize", "setF": "set_precoders", "setFull": "set_precoders",
               "setW": "set_receive_filters", "P": "P_setter", "setBoth": "set_precoders",
-              "bad": "rejected_call"}
+              "bad": "invalid_call"}
 
 
 def hist_configs(tier):
@@ -1214,9 +1219,9 @@ def hist_new(cfg, data, second_solver=False):
     from pyphysim.ia.iabase import IASolverBaseClass
     ext = cfg["chan"] == "ext"
     st = HistState()
-    st.rejected = []          # (sub-call, raised?, object unchanged?) of every "atomic" invalid call
-    st.soft = []              # the same for invalid calls that are only recorded as outcomes
-    st.unknown = set()        # solver inputs ("F", "W") an unvalidated invalid call may have damaged
+    st.soft = []              # (sub-call, raised?, objects unchanged?) of every invalid call made
+    st.unknown = set()        # parts ("H","PL","noise","F","W","P") an invalid call has damaged and
+    #                           no valid call has re-established yet
     st.ch = multiuser.MultiUserChannelMatrixExtInt() if ext else multiuser.MultiUserChannelMatrix()
     _hist_init(cfg, data, st, 0)
     st.sol = IASolverBaseClass(st.ch)
@@ -1250,14 +1255,14 @@ def _hist_init(cfg, data, st, mem):
 
 
 def invalid_calls(cfg, data, st, which):
-    """(name, thunk, policy) of invalid calls.
-    policy "atomic": the library rejects the call by raising before it touches anything - the
-    call must raise and channel + solver must stay exactly as they were (hard requirement).
-    policy "F" / "W": input the library does not promise to validate (a list of the wrong length):
-    whether it raises / is accepted / changes the object is only RECORDED as an outcome; the
-    requirement is coherence - the solver's precoders (filters) count as unknown until a valid
-    set_precoders (set_receive_filters) re-establishes them, after which every relation must hold
-    again against first principles."""
+    """(name, thunk, parts) of invalid calls (tools/INVALID_CALL_POLICY.md).
+    An invalid call, as a call, is free: whether it raises, which exception, whether it is
+    accepted, whether it changes the objects is only RECORDED (outcome class "invalid_call").
+    `parts` names what the call could have damaged: "H" channel matrix / layout, "PL" path loss,
+    "noise", and the solver inputs "F", "W", "P".  If the objects changed, those parts count as
+    unknown until a VALID call re-establishes them (init_from_channel_matrix / randomize,
+    set_pathloss, noise_var =, set_precoders, set_receive_filters, P =); from then on every
+    relation of the property must hold again against first principles."""
     K = data["K"]
     ext = cfg["chan"] == "ext"
     ch, sol = st.ch, st.sol
@@ -1268,38 +1273,48 @@ def invalid_calls(cfg, data, st, which):
     if which == "channel":
         calls = [
             ("init_from_channel_matrix(wrong shape)",
-             lambda: ch.init_from_channel_matrix(H1[:-1, :], Nr, Nt, K, *more), "atomic"),
+             lambda: ch.init_from_channel_matrix(H1[:-1, :], Nr, Nt, K, *more), ("H", "PL")),
             ("init_from_channel_matrix(K mismatch)",
-             lambda: ch.init_from_channel_matrix(H1, Nr, Nt, K + 1, *more), "atomic"),
-            ("noise_var=-1", lambda: setattr(ch, "noise_var", -1.0), "atomic"),
+             lambda: ch.init_from_channel_matrix(H1, Nr, Nt, K + 1, *more), ("H", "PL")),
+            ("noise_var=-1", lambda: setattr(ch, "noise_var", -1.0), ("noise",)),
         ]
         if ext:
             calls += [
                 ("init_from_channel_matrix(NtE not matching the matrix)",
-                 lambda: ch.init_from_channel_matrix(H1, Nr, Nt, K, [3, 1]), "atomic"),
+                 lambda: ch.init_from_channel_matrix(H1, Nr, Nt, K, [3, 1]), ("H", "PL")),
                 ("set_pathloss(P, ext_int_pathloss missing)",
-                 lambda: ch.set_pathloss(np.ones((K, K))), "atomic"),
+                 lambda: ch.set_pathloss(np.ones((K, K))), ("PL",)),
             ]
         return calls
     return [
-        ("P=0", lambda: setattr(sol, "P", 0.0), "atomic"),
-        ("P=[.., -1]", lambda: setattr(sol, "P", np.array([1.0] * (K - 1) + [-1.0])), "atomic"),
-        ("P of wrong length", lambda: setattr(sol, "P", np.ones(K + 1)), "atomic"),
-        ("set_precoders()", lambda: sol.set_precoders(), "atomic"),
+        ("P=0", lambda: setattr(sol, "P", 0.0), ("P",)),
+        ("P=[.., -1]", lambda: setattr(sol, "P", np.array([1.0] * (K - 1) + [-1.0])), ("P",)),
+        ("P of wrong length", lambda: setattr(sol, "P", np.ones(K + 1)), ("P",)),
+        ("set_precoders()", lambda: sol.set_precoders(), ("F", "P")),
         ("set_precoders(F, P=[.., -1])",
          lambda: sol.set_precoders(F=objarr(_unit(Fa)), P=np.array([1.0] * (K - 1) + [-1.0])),
-         "atomic"),
-        ("set_receive_filters()", lambda: sol.set_receive_filters(), "atomic"),
+         ("F", "P")),
+        ("set_receive_filters()", lambda: sol.set_receive_filters(), ("W",)),
         ("set_receive_filters(W, W_H)",
          lambda: sol.set_receive_filters(W=objarr([np.array(m_) for m_ in Wa]),
                                          W_H=objarr([np.array(m_).conj().T for m_ in Wa])),
-         "atomic"),
-        # unvalidated input: outcome recorded, coherence after the next valid setter required
+         ("W",)),
         ("set_precoders(F of K-1 users)", lambda: sol.set_precoders(F=objarr(_unit(Fa)[:-1])),
-         "F"),
+         ("F",)),
         ("set_receive_filters(W of K-1 users)",
-         lambda: sol.set_receive_filters(W=objarr([np.array(m_) for m_ in Wa][:-1])), "W"),
+         lambda: sol.set_receive_filters(W=objarr([np.array(m_) for m_ in Wa][:-1])), ("W",)),
     ]
+
+
+def hist_apply_touch(ch, data, arg, pe_touch, st):
+    if arg == "IC":
+        ch.calc_SINR(objarr(data["F"]["a"]), objarr(data["U"]), *pe_touch)
+        ch.calc_Q(0, objarr(data["F"]["a"]), *pe_touch)
+    elif arg == "JP":
+        ch.calc_JP_SINR(objarr(data["Fjp"]), objarr(data["U"]), *pe_touch)
+        ch.calc_JP_Q(0, objarr(data["Fjp"]), *pe_touch)
+    else:
+        st.sol2.calc_SINR()
 
 
 def hist_apply(cfg, data, st, ev):
@@ -1313,6 +1328,7 @@ def hist_apply(cfg, data, st, ev):
     Nr, Nt = np.array(cfg["Nr"]), np.array(cfg["Nt"])
     pe_touch = (0.5,) if ext else ()
     if kind == "pl":
+        st.unknown.discard("PL")
         PLm = data["PL"][arg]
         if PLm is None:
             ch.set_pathloss(None)
@@ -1321,10 +1337,13 @@ def hist_apply(cfg, data, st, ev):
         else:
             ch.set_pathloss(np.array(PLm, copy=True))
     elif kind == "noise":
+        st.unknown.discard("noise")
         ch.noise_var = H_NOISES[arg]
     elif kind == "init":
+        st.unknown.discard("H")
         _hist_init(cfg, data, st, arg)
     elif kind == "rand":
+        st.unknown.discard("H")
         # the library's only random draw is scripted: it returns family member `arg`
         def fake(_rs, *shape, H2=data["H"][arg]):
             assert tuple(int(v) for v in shape) == H2.shape, (shape, H2.shape)
@@ -1347,6 +1366,7 @@ def hist_apply(cfg, data, st, ev):
         sol.set_precoders(full_F=objarr([data["F"][arg][k] * (1.7 + 0.9 * k) for k in range(K)]))
     elif kind == "setBoth":
         st.unknown.discard("F")
+        st.unknown.discard("P")
         # every argument at once, with a power back-off: full_F != sqrt(P) F
         sol.set_precoders(F=objarr(_unit(data["F"][arg])), full_F=objarr(backoff_full_F(data, arg)),
                           P=np.array(data["Pvec"]))
@@ -1357,21 +1377,22 @@ def hist_apply(cfg, data, st, ev):
         else:
             sol.set_receive_filters(W_H=[np.array(m_).conj().T for m_ in data["W"][arg]])
     elif kind == "P":
+        damaged = bool(st.unknown - {"P"})
         try:
             sol.P = np.array(data["Pvec"]) if arg else None
+            st.unknown.discard("P")
         except Exception:           # noqa
-            if not st.unknown:
+            if not damaged:
                 raise
-            st.p_failed = True      # (power not taken while the inputs are damaged)
+            st.unknown.add("P")     # (power not taken while other inputs are still damaged)
+    elif kind == "touch" and st.unknown and arg != "solver":
+        try:        # damaged and not re-established: anything may happen, nothing is required
+            hist_apply_touch(ch, data, arg, pe_touch, st)
+        except Exception:       # noqa
+            pass
     elif kind == "touch":
-        if arg == "IC":
-            ch.calc_SINR(objarr(data["F"]["a"]), objarr(data["U"]), *pe_touch)
-            ch.calc_Q(0, objarr(data["F"]["a"]), *pe_touch)
-        elif arg == "JP":
-            ch.calc_JP_SINR(objarr(data["Fjp"]), objarr(data["U"]), *pe_touch)
-            ch.calc_JP_Q(0, objarr(data["Fjp"]), *pe_touch)
-        elif arg == "solver2":
-            st.sol2.calc_SINR()
+        if arg in ("IC", "JP", "solver2"):
+            hist_apply_touch(ch, data, arg, pe_touch, st)
         elif st.unknown:
             try:                    # inputs not re-established yet: anything may happen, nothing
                 sol.calc_SINR()     # is required - except that it must not poison what follows
@@ -1390,12 +1411,9 @@ def hist_apply(cfg, data, st, ev):
             except Exception as e:          # noqa
                 raised = type(e).__name__
             same = _digest_state(st) == before
-            if policy == "atomic":
-                st.rejected.append((name, raised, same))
-            else:
-                st.soft.append((name, raised, same))
-                if not same:
-                    st.unknown.add(policy)
+            st.soft.append((name, raised, same))
+            if not same:
+                st.unknown.update(policy)
     else:
         raise ValueError(kind)
 
@@ -1449,16 +1467,6 @@ def hist_observe(chk, cfg, data, hist, st):
             pre, v2 = cand, got
         else:
             i += 1
-    rejected = [v for v in v2.values() if v["sig"][1].startswith("rejected_call|")]
-    if rejected:
-        # reported one by one; wrong values afterwards are consequences of the damaged objects
-        for v in rejected:
-            _, name, what = v["sig"][1].split("|")
-            chk.fail(("hist", "extint" if cfg["chan"] == "ext" else "plain", "rejected_call", name,
-                      what), dict(cfg, hist=[list(e) for e in pre]), observed=v["observed"],
-                     expected=v["expected"],
-                     msg="minimal failing sub-history of %r" % ([list(e) for e in hist],))
-        return
     rels = []
     for v in v2.values():
         sg = v["sig"]
@@ -1470,7 +1478,15 @@ def hist_observe(chk, cfg, data, hist, st):
         kind, arg = pre[-1]
         culprit = EVENT_NAME.get(kind, "touch_%s" % arg)
     first = sorted(v2.values(), key=lambda v: (v["sig"][1] != primary, v["sig"]))[0]
-    chk.fail(("hist", "extint" if cfg["chan"] == "ext" else "plain", "wrong_after_" + culprit, primary),
+    cls_name = "extint" if cfg["chan"] == "ext" else "plain"
+    bad = [arg for kind, arg in pre if kind == "bad"]
+    if bad:
+        # INVALID_CALL_POLICY rule 2: the inputs were re-established by valid calls, yet a relation
+        # of the property fails afterwards
+        sig = ("after_invalid_call", "%s:invalid_%s_calls" % (cls_name, bad[-1]), primary)
+    else:
+        sig = ("hist", cls_name, "wrong_after_" + culprit, primary)
+    chk.fail(sig,
              dict(cfg, hist=[list(e) for e in pre]), observed=first["observed"],
              expected=first["expected"],
              msg="minimal failing sub-history of %r; failing relations: %s"
@@ -1482,21 +1498,14 @@ def _hist_observe_raw(chk, cfg, data, hist, st):
     m = hist_model(hist)
     ext = cfg["chan"] == "ext"
     for name, raised, same in st.soft:
-        chk.outcome("unvalidated_invalid_call_outcome",
-                    (name, raised or "accepted", "objects unchanged" if same else "objects changed"))
-    for name, raised, same in st.rejected:
-        # an invalid call must raise and leave channel and solver exactly as they were
-        chk.outcome("rejected_call_outcome", (name, raised or "accepted", same))
-        chk.count("eval_rejected_calls")
-        if raised is None:
-            chk.fail(("hist|errors", "rejected_call|%s|accepted_silently" % name),
-                     dict(cfg, hist=[list(e) for e in hist]), observed="no exception",
-                     expected="an exception, objects unchanged")
-        elif not same:
-            chk.fail(("hist|errors", "rejected_call|%s|raised_but_objects_changed" % name),
-                     dict(cfg, hist=[list(e) for e in hist]),
-                     observed="%s raised, digest of channel+solver attributes changed" % raised,
-                     expected="an exception, objects unchanged")
+        # tools/INVALID_CALL_POLICY.md rule 1: recorded, never judged
+        chk.outcome("invalid_call", (name, "raised:%s" % raised if raised else "accepted",
+                                     "object_unchanged" if same else "object_changed"))
+        chk.count("invalid_calls_made")
+    if st.unknown & {"H", "PL", "noise"}:
+        # the channel object was changed by an invalid call and not re-established by valid calls
+        chk.count("hist_observations_skipped_channel_not_reestablished")
+        return (m["mem"], m["pl"], m["noise"], "channel state unknown")
     inp = dict(K=data["K"], ntE=data["ntE"], Hraw=data["H"][m["mem"]], PL=data["PL"][m["pl"]],
                F=data["F"]["a"], Fjp=data["Fjp"], U=data["U"])
     mk = (m["mem"], m["pl"], m["noise"], m["F"], m["W"], m["P"], m["cached"], m["stale"])
@@ -1508,8 +1517,8 @@ def _hist_observe_raw(chk, cfg, data, hist, st):
         run_chan_case(dict(sub, var=var, pe=pe), chk,
                       live=dict(view="hist|%s_%s" % (cname, var), ch=st.ch,
                                 inp=inp if var == "IC" else dict(inp, U=data["U_tiny"])))
-    if st.unknown or getattr(st, "p_failed", False):
-        # precoders / filters damaged by an unvalidated invalid call and not re-established yet
+    if st.unknown:
+        # precoders / filters / powers damaged by an invalid call and not re-established yet
         chk.count("hist_solver_observations_skipped_inputs_not_reestablished")
         return (m["mem"], m["pl"], m["noise"], "solver inputs unknown")
     Fn, P, fullF = model_precoders(m, data)
@@ -1542,8 +1551,7 @@ def run_hist_unit(unit, chk):
         def canon(hist, st):
             m = hist_model(hist)
             key = (m["mem"], m["pl"], m["noise"], m["F"], m["W"], m["P"], _digest_state(st),
-                   frozenset(r for r in st.rejected if not (r[1] and r[2])),
-                   frozenset(st.unknown), bool(getattr(st, "p_failed", False)))
+                   frozenset(st.unknown))
             last["key"] = key
             return key
 
@@ -1556,8 +1564,7 @@ def run_hist_unit(unit, chk):
             hist_observe(chk, cfg, data, hist, st)
 
         def enabled(hist, st):
-            # objects damaged by a rejected call are reported and not explored further
-            return [] if any(not (r[1] and r[2]) for r in st.rejected) else evs
+            return evs
 
         b = bfs.BFS(chk, build, enabled, invariant, canon, cfg["depth"] - 1,
                     label="hist")
@@ -1713,8 +1720,144 @@ def run_multi_unit(unit, chk):
 
 
 # ----------------------------------------------------------------------
+# Part 1c: sum capacity where algebraically identical formulas leave the double range
+# ----------------------------------------------------------------------
+CAP_BITS = 1100.0        # the "large" cases must carry more than this (2^1024 is the double range)
+
+
+def capacity_cases(tier):
+    """(a) many streams at ordinary SINR: K = 40 users x 3 streams, weak cross links;
+    (b) the same network drowned in noise: 120 streams at SINR 1e-6 / 1e-20 (1 + SINR rounds);
+    (c) few streams at extreme SINR: K = 12 isolated links (cross blocks exactly zero, or path loss
+        exactly zero off the diagonal), one stream each, noise 1e-30 / 1e-300."""
+    offs = _offs()
+    members = range(2) if tier == "thorough" else range(1)
+    for s in members:
+        base = dict(kind="capacity", s=s, offs=offs, cls="IASolverBaseClass")
+        for K in ((40, 64) if tier == "thorough" else (40,)):
+            for noise in (1e-4, 1e6, 1e20):
+                yield dict(base, form="many_streams", K=K, N=4, Ns=3, noise=noise)
+        for iso in ("zero_blocks", "zero_pathloss"):
+            for noise in (1e-30, 1e-300):
+                yield dict(base, form="isolated_links", K=12, N=2, Ns=1, noise=noise, iso=iso)
+
+
+def run_capacity_case(case, chk):
+    view = "capacity_" + case["form"]
+    with chk.guard((view,), case):
+        from pyphysim.channels import multiuser
+        from pyphysim.ia.iabase import IASolverBaseClass
+        from pyphysim.util import misc
+        K, N, ns = case["K"], case["N"], case["Ns"]
+        Nr = [N] * K
+        H = gen(case, 21, 0, (K * N, K * N))
+        PL = None
+        isolated = case["form"] == "isolated_links"
+        if isolated and case["iso"] == "zero_blocks":
+            for i in range(K):
+                for j in range(K):
+                    if i != j:
+                        H[i * N:(i + 1) * N, j * N:(j + 1) * N] = 0.0
+        elif isolated:
+            PL = np.eye(K)
+        else:
+            PL = np.full((K, K), 1e-6) + (1.0 - 1e-6) * np.eye(K)     # weak cross links
+        F = _unit([gen(case, 22, 2 + k, (N, ns)) for k in range(K)])
+        # receive filters near the matched filter (keeps W^H H F well conditioned for 120+ streams)
+        W = [H[k * N:(k + 1) * N, k * N:(k + 1) * N] @ F[k] + 0.3 * gen(case, 23, 200 + k, (N, ns))
+             for k in range(K)]
+        ch = multiuser.MultiUserChannelMatrix()
+        ch.init_from_channel_matrix(np.array(H, copy=True), N, N, K)      # Nr / Nt as ints
+        if PL is not None:
+            ch.set_pathloss(np.array(PL, copy=True))
+        ch.noise_var = case["noise"]
+        sol = IASolverBaseClass(ch)
+        sol.set_precoders(F=[np.array(m_) for m_ in F])
+        sol.set_receive_filters(W=[np.array(m_) for m_ in W])
+        chk.count("eval_capacity_cases")
+
+        # first principles (own zero-forcing full filter, scalar sums)
+        ref = Ref(Nr, Nr, [], H, PL, case["noise"], 0.0)
+        Ufull, conds = [], []
+        for k in range(K):
+            Uk, cd = oracle_full_filter(ref, F, W, k)
+            Ufull.append(Uk)
+            conds.append(SOLVE_SAFETY * cd)
+        ref_sinr, parts = ref.sinr(F, Ufull, False)
+        n = K * ns
+        want = 0.0
+        for k in range(K):
+            for l in range(ns):
+                want += math.log2(1.0 + ref_sinr[k][l])
+        regime = ("above_%d_bits" % CAP_BITS if want > CAP_BITS else
+                  "one_plus_sinr_rounds_to_one" if max(max(r) for r in ref_sinr) < EPS else "other")
+        chk.outcome("capacity_regime", (case["form"], regime))
+        chk.outcome("capacity_streams", n)
+        chk.nontriv(("capacity", case["form"], K, repr(case["noise"]), case.get("iso"), case["s"]))
+
+        got = sol.calc_SINR()
+        if not check_shape(chk, view, "calc_SINR", case, got, [ns] * K):
+            return
+        # with isolated links and one stream the interference part is exactly zero: nothing cancels
+        kap = [[1.0 if isolated else kappa_of(parts[k][l]) * conds[k] for l in range(ns)]
+               for k in range(K)]
+        # a relative SINR error e moves log2(1+SINR) by at most e/ln 2 bits: the capacity relation
+        # stays meaningful for much larger cancellation factors than a single SINR does
+        comparable = all(v < 1e10 for row in kap for v in row)
+        if True:
+            for k in range(K):
+                for l in range(ns):
+                    if not kap[k][l] < KAPPA_MAX:
+                        chk.count("excluded_kappa_capacity_case_streams")
+                        continue
+                    ok, ne = sinr_close(float(got[k][l]), ref_sinr[k][l], kap[k][l])
+                    if not ok:
+                        chk.fail((view, "calc_SINR_vs_first_principles"), case,
+                                 observed="SINR[%d][%d]=%r" % (k, l, float(got[k][l])),
+                                 expected=ref_sinr[k][l], msg="normalized error %.3g" % ne)
+            chk.count("eval_calc_SINR_vs_first_principles", n)
+        if not comparable:
+            chk.count("excluded_kappa_capacity_case")
+
+        # every capacity-like public accessor: finite, the sum of log2(1 + SINR)
+        flat = np.hstack([np.asarray(got[k], dtype=float) for k in range(K)])
+        own = 0.0
+        for v in flat.tolist():
+            own += math.log2(1.0 + v)
+        tol_own = (64 + n) * EPS * max(1.0, abs(own))
+        tol_ref = C_TOL * EPS * abs(want)
+        for k in range(K):
+            for l in range(ns):
+                x = ref_sinr[k][l]
+                tol_ref += C_TOL * EPS * (kap[k][l] * x / (1.0 + x) + 1.0) / math.log(2.0)
+        for name, value in (("calc_sum_capacity", sol.calc_sum_capacity()),
+                            ("calc_shannon_sum_capacity", misc.calc_shannon_sum_capacity(flat))):
+            chk.count("eval_capacity_accessor_at_scale")
+            if not (isinstance(value, (float, np.floating)) and math.isfinite(value)):
+                chk.fail((view, name, "not_finite", regime), case, observed=value,
+                         expected="%r (finite: sum of log2(1+SINR) over %d streams)" % (own, n))
+                continue
+            if not abs(float(value) - own) <= tol_own:
+                chk.fail((view, name, "is_sum_log2_of_calc_SINR", regime), case, observed=value,
+                         expected=own)
+            if comparable and not abs(float(value) - want) <= tol_ref:
+                chk.fail((view, name, "vs_first_principles", regime), case, observed=value,
+                         expected=want)
+        dB = sol.calc_SINR_in_dB()
+        if check_shape_db(chk, view, case, dB, [ns] * K):
+            for k in range(K):
+                for l in range(ns):
+                    o = 10.0 * math.log10(float(got[k][l]))
+                    if abs(float(dB[k][l]) - o) > 64 * EPS * max(1.0, abs(o)):
+                        chk.fail((view, "calc_SINR_in_dB", "is_10log10_of_calc_SINR"), case,
+                                 observed=float(dB[k][l]), expected=o)
+
+
+# ----------------------------------------------------------------------
 def run_case(case, chk):
-    if case["kind"] == "multi":
+    if case["kind"] == "capacity":
+        run_capacity_case(case, chk)
+    elif case["kind"] == "multi":
         run_multi_unit(case, chk)
     elif case["kind"] == "hist":
         if "hist" in case:
@@ -1752,15 +1895,12 @@ def main(chk: Check):
                "cannot be reported by 'total minus own-stream covariance' in double precision "
                "(the subtraction may cancel to exactly zero -> ZeroDivisionError); such cases are "
                "excluded and counted (excluded_zero_denominator)")
-    chk.assume("invalid calls (Part H 'bad' events): calls the library rejects by raising before "
-               "touching anything (set_receive_filters() with neither/both, set_precoders() / "
-               "set_precoders(F, P=invalid), P=invalid, init_from_channel_matrix with wrong shape / "
-               "K / NtE, ExtInt set_pathloss without the external part, noise_var<0) must raise and "
-               "leave channel and solver exactly as they were; unvalidated input (a list of K-1 "
-               "precoders or filters) is only recorded as an outcome, the affected solver inputs "
-               "count as unknown until a valid set_precoders / set_receive_filters, after which "
-               "every relation must hold again; wrong matrix shapes inside a list and negative pe "
-               "are outside the domain")
+    chk.assume("invalid calls (Part H 'bad' events, tools/INVALID_CALL_POLICY.md): what an invalid "
+               "call does (raise / accept / change the objects) is recorded as the outcome class "
+               "'invalid_call' and never judged; if the objects changed, the possibly damaged parts "
+               "(channel matrix, path loss, noise, precoders, filters, powers) count as unknown and "
+               "the relations depending on them are not evaluated until VALID calls re-establish "
+               "them; from then on every relation must hold again (signature after_invalid_call|...)")
     chk.assume("matrices are members of the closed-form generic family (two superposed members "
                "with seed-rotated offsets); streams Ns_k <= min(Nr_k, Nt_k)")
     chk.extra["tolerance_c"] = C_TOL
@@ -1771,6 +1911,7 @@ def main(chk: Check):
     chk.extra["filter_rescale_factors"] = [repr(f) for f in FACTORS]
     ncase = sum(1 for _ in all_cases(chk.tier))
     chk.extra["enumerated_cases"] = ncase
+    chk.extra["capacity_scale_cases"] = sum(1 for _ in capacity_cases(chk.tier))
     chk.extra["scale_cases"] = sum(1 for _ in scale_cases(chk.tier))
     chk.extra["scale_families"] = [n for n, _ in SCALES] + [
         "noise %r" % SCALE_NOISES, "pe %r" % SCALE_PES]
@@ -1784,8 +1925,8 @@ def main(chk: Check):
 
     def worker(i, n, c):
         # the (heavier) history units first so that they spread evenly over the workers
-        for case in shard(itertools.chain(hist_units(c.tier), multi_units(c.tier),
-                                          scale_cases(c.tier),
+        for case in shard(itertools.chain(capacity_cases(c.tier), hist_units(c.tier),
+                                          multi_units(c.tier), scale_cases(c.tier),
                                           all_cases(c.tier)), i, n):
             run_case(case, c)
 
@@ -1803,8 +1944,14 @@ def main(chk: Check):
     chk.require_outcomes("configuration", 100)
     chk.require_outcomes("history_model_state", 200)
     chk.require_outcomes("history_depth", 2)
-    chk.require_outcomes("rejected_call_outcome", 8)
-    chk.require_outcomes("unvalidated_invalid_call_outcome", 2)
+    regimes = chk.outcomes.get("capacity_regime", set())
+    for need in (("many_streams", "above_%d_bits" % CAP_BITS),
+                 ("isolated_links", "above_%d_bits" % CAP_BITS),
+                 ("many_streams", "one_plus_sinr_rounds_to_one")):
+        if need not in regimes:
+            from vmc.report import Broken
+            raise Broken("vacuous: capacity regime %r not reached (%r)" % (need, sorted(regimes)))
+    chk.require_outcomes("invalid_call", 10)
     chk.require_outcomes("solver_observed_after_reestablishing_inputs", 2)
     if not chk.counters.get("eval_multi_object_sequences", 0) >= 100:
         from vmc.report import Broken
